@@ -77,6 +77,10 @@ def validateCtxUpdate (provs : List Addr) (cap : Option Nat) (timeout : Int) (fr
   else if total < -1 then some .invalidRepeatedFreq
   else none
 
+/-- the stateless validity of a stored context (`RequestContext.Validate`): service name, providers, consumer, fee cap -/
+def ctxFieldsOK (x : Ctx) : Bool :=
+  validName x.svc && !x.provs.isEmpty && decide (x.provs.length ≤ 10) && x.provs.Nodup && x.cons ≠ "" && decide (0 < x.cap)
+
 /-! ### creating a context (`CreateRequestContext`) -/
 /-- the checks made only for module-owned contexts: callbacks registered, `ValidateRequest`, threshold -/
 def createPre (s : State) (mod : ModName) (svc : SvcName) (provs : List Addr) (cap : Option Nat) (timeout : Int)
